@@ -116,6 +116,9 @@ where
 
     /// Clears wasted tracks
     fn clear_wasted(&self) {
+        // expired tracks that the periodic collection has not moved to the wasted store yet are
+        // wasted as well: what a later `wasted()` returns must not depend on when it last ran
+        self.get_main_store().clear_wasted();
         self.get_wasted_store().clear();
     }
 }
